@@ -135,8 +135,9 @@ NumOK(lit, r) ==
   /\ r.t \in {"int", "flt", "big"}
   /\ (lit.plain /\ FitsInt64(lit.dec) /\ ~(lit.minus /\ IsZero(lit.dec))) => r.t = "int"
   /\ r.t = "int" => DecEq(r.dec, lit.dec)
-  /\ r.t = "flt" => IF r.inf # 0 THEN (IF r.inf > 0 THEN ~lit.dec.neg ELSE lit.dec.neg) /\ MagCmp(lit.dec, r.thr) >= 0
-                    ELSE DecCmp(r.lo, lit.dec) <= 0 /\ DecCmp(lit.dec, r.hi) <= 0
+  \* an infinity is never the float64 "nearest to" a literal: every digit is lost (a literal beyond the float64 range comes back as
+  \* json.Number / gen.Big; until fix 1e400->Number the overflow reading was tolerated here)
+  /\ r.t = "flt" => r.inf = 0 /\ DecCmp(r.lo, lit.dec) <= 0 /\ DecCmp(lit.dec, r.hi) <= 0
   /\ r.t = "big" => /\ "digits" \in DOMAIN r.dec          \* the text is a decimal literal at all
                     /\ DecEq(r.dec, lit.dec)
                     /\ LET n == PNum(r.text, 1) IN n.p = Len(r.text) + 1 /\ Accepts(RunSeq(S0, r.text))
